@@ -481,6 +481,35 @@ func c06Errors(run *mon.Run, r *rand.Rand, g *thrGroup) {
 	}
 	_, err = ins.ThresholdSignature()
 	check("stateful-not-enough", err, crypto.IsNotEnoughSharesError)
+	// duplicates are still reported once enough shares are collected, by both adding functions
+	insF, _ := g.inspector()
+	for i, s := range signers {
+		if i%2 == 0 {
+			_, _ = insF.TrustedAdd(s, shares[i])
+		} else {
+			_, _, _ = insF.VerifyAndAdd(s, shares[i])
+		}
+	}
+	if insF.EnoughShares() {
+		for i, s := range signers {
+			_, err = insF.TrustedAdd(s, shares[i])
+			check("stateful-duplicate-after-enough-trusted", err, crypto.IsDuplicatedSignerError)
+			_, _, err = insF.VerifyAndAdd(s, shares[i])
+			check("stateful-duplicate-after-enough-verify", err, crypto.IsDuplicatedSignerError)
+		}
+		// a new signer after enough shares is not an error and is not retained
+		for o := 0; o < n; o++ {
+			if has, _ := insF.HasShare(o); !has {
+				b, e := insF.TrustedAdd(o, g.share[o])
+				has2, _ := insF.HasShare(o)
+				run.Eval(1)
+				if !b || e != nil || has2 {
+					run.Violate("C06:surplus-trusted-add", fmt.Sprintf("TrustedAdd of a new signer after enough shares: (%v,%v), retained=%v", b, e, has2), map[string]any{"n": n, "t": t})
+				}
+				break
+			}
+		}
+	}
 	// key generation errors
 	_, _, _, err = crypto.BLSThresholdKeyGen(n, t, make([]byte, 31))
 	check("keygen-short-seed", err, crypto.IsInvalidInputsError)
